@@ -5,6 +5,7 @@ labels.
 import DimModel.Lib.Missing
 import DimModel.Proofs.Order
 import DimModel.Proofs.C17
+import DimModel.Proofs.C17Key
 namespace DimModel
 open Lib
 open C17P
@@ -931,6 +932,361 @@ example : ∃ r, takeAxis exA [.str "a", .str "b", .str "a"] (.pos 1) .label fal
   obtain ⟨r, hr⟩ := h
   obtain ⟨ps, -, -, -, h4⟩ := takeAxis_label_spec exA r _ (.pos 1) 1 exY exA_wf hp rfl hr
   exact ⟨r, hr, h4⟩
+
+end C17Ex
+
+/-! ## `sort_axis(axis, key=...)`: the key is a function on labels (mirror `Lib.sortAxisKey`, Lib/Missing2.lean)
+
+The library has no `reverse=` parameter; a descending sort is `key=lambda x: -x` (theorem `sortAxis_key_neg_descending`). -/
+
+/-- Spec: `σ` is the stable sorting permutation of the labels `L` **by the key `f`**: a permutation of the positions such
+that the key values read through `σ` ascend and labels with equal key values keep their original relative order -/
+def IsStableArgsortBy (f : Label → Label) (L : List Label) (σ : List Nat) : Prop :=
+  σ.Perm (List.range L.length) ∧
+  ∀ (i j p q : Nat) (x y : Label), i < j → σ[i]? = some p → σ[j]? = some q → L[p]? = some x → L[q]? = some y →
+    Label.le (f x) (f y) = true ∧ (f x = f y → p < q)
+
+/-- sorting by a key is sorting the list of key values -/
+theorem isStableArgsortBy_iff_map (f : Label → Label) (L : List Label) (σ : List Nat) :
+    IsStableArgsortBy f L σ ↔ IsStableArgsort (L.map f) σ := by
+  unfold IsStableArgsortBy IsStableArgsort
+  rw [List.length_map]
+  constructor
+  · rintro ⟨h1, h2⟩
+    refine ⟨h1, ?_⟩
+    intro i j p q x y hij hp hq hx hy
+    rw [List.getElem?_map] at hx hy
+    cases hxp : L[p]? with
+    | none => rw [hxp] at hx; cases hx
+    | some x0 =>
+      cases hyq : L[q]? with
+      | none => rw [hyq] at hy; cases hy
+      | some y0 =>
+        rw [hxp] at hx; rw [hyq] at hy
+        simp only [Option.map_some, Option.some.injEq] at hx hy
+        subst hx hy
+        exact h2 i j p q x0 y0 hij hp hq hxp hyq
+  · rintro ⟨h1, h2⟩
+    refine ⟨h1, ?_⟩
+    intro i j p q x y hij hp hq hx hy
+    exact h2 i j p q (f x) (f y) hij hp hq (by rw [List.getElem?_map, hx]; rfl) (by rw [List.getElem?_map, hy]; rfl)
+
+/-- with the identity key this is the plain stable argsort -/
+theorem isStableArgsortBy_id (L : List Label) (σ : List Nat) : IsStableArgsortBy (fun l => l) L σ ↔ IsStableArgsort L σ := by
+  rw [isStableArgsortBy_iff_map, List.map_id']
+
+/-- the stable sorting permutation by a key is unique -/
+theorem IsStableArgsortBy.unique {f : Label → Label} {L : List Label} {σ τ : List Nat}
+    (hσ : IsStableArgsortBy f L σ) (hτ : IsStableArgsortBy f L τ) : σ = τ :=
+  IsStableArgsort.unique ((isStableArgsortBy_iff_map f L σ).mp hσ) ((isStableArgsortBy_iff_map f L τ).mp hτ)
+
+/-- **`sort_axis(axis, key=key)`, end to end.** When it succeeds on a well-formed array, the key evaluated without an
+exception on every label of the axis (`keyOr key` is then the function it computes there), and the result is the input with
+the slices along that axis reordered by THE stable sorting permutation `σ` of the labels w.r.t. the keyed order: result label
+`i` is input label `σ[i]`, result slice `i` is input slice `σ[i]` (`SelectsSlices`: value equation, other axes, axis and array
+metadata, dtype kind, well-formedness), and (for a plain axis) the shape is unchanged. -/
+theorem sortAxis_key_spec {α : Type} (a r : DimArray α) (k : DimKey) (key : Label → Except Err Label) (pos : Nat) (ax : Axis)
+    (hwf : a.WF) (hpos : axisPos a.axes k = .ok pos) (hax : a.axes[pos]? = some ax)
+    (h : sortAxisKey a k key = .ok r) :
+    (∀ l ∈ ax.labels, key l = .ok (keyOr key l)) ∧
+    ∃ σ, IsStableArgsortBy (keyOr key) ax.labels σ ∧ SelectsSlices a r pos σ ∧
+      (ax.members = [] → r.vals.shape = a.vals.shape) := by
+  have hlt := axisPos_lt _ _ _ hpos
+  have hgetD : a.axes.getD pos default = ax := by
+    rw [List.getD_eq_getElem?_getD, hax]; rfl
+  obtain ⟨ks, hks, -, hr⟩ := sortAxisKey_eq a r k key pos hpos h
+  rw [hgetD] at hks
+  obtain ⟨hmap, hall⟩ := evalKeys_ok key ax.labels ks hks
+  subst hr
+  subst hmap
+  refine ⟨hall, _, (isStableArgsortBy_iff_map _ _ _).mpr (argsortBy_isStableArgsort _), ?_, ?_⟩
+  · apply takeAxisPos_selects a pos _ ax hwf hax
+    intro p hp
+    have := argsortBy_lt Label.le _ p hp
+    rwa [List.length_map] at this
+  · intro hplain
+    rw [takeAxisPos_shape, argsortBy_length, List.length_map, hwf.1]
+    apply List.ext_getElem?
+    intro i
+    rw [List.getElem?_set, List.getElem?_map]
+    by_cases hi : pos = i
+    · subst hi
+      rw [hax]
+      simp [hlt, Axis.size, hplain]
+    · simp [hi]
+
+/-- the same for a key that never raises (`key = fun l => .ok (f l)`): the keyed order is that of `f` itself -/
+theorem sortAxis_key_total_spec {α : Type} (a r : DimArray α) (k : DimKey) (f : Label → Label) (pos : Nat) (ax : Axis)
+    (hwf : a.WF) (hpos : axisPos a.axes k = .ok pos) (hax : a.axes[pos]? = some ax)
+    (h : sortAxisKey a k (fun l => .ok (f l)) = .ok r) :
+    ∃ σ, IsStableArgsortBy f ax.labels σ ∧ SelectsSlices a r pos σ ∧ (ax.members = [] → r.vals.shape = a.vals.shape) :=
+  (sortAxis_key_spec a r k _ pos ax hwf hpos hax h).2
+
+/-- the key values of the result labels ascend -/
+theorem sortAxis_key_sorted {α : Type} (a r : DimArray α) (k : DimKey) (key : Label → Except Err Label) (pos : Nat)
+    (ax ax' : Axis) (hwf : a.WF) (hpos : axisPos a.axes k = .ok pos) (hax : a.axes[pos]? = some ax)
+    (h : sortAxisKey a k key = .ok r) (hax' : r.axes[pos]? = some ax') :
+    (ax'.labels.map (keyOr key)).Pairwise (fun x y => Label.le x y = true) := by
+  obtain ⟨-, σ, hst, hsel, -⟩ := sortAxis_key_spec a r k key pos ax hwf hpos hax h
+  obtain ⟨ax0, ax1, h0, h1, -, -, -, -, hlen, hin, hlab⟩ := hsel.axis
+  rw [hax] at h0; rw [hax'] at h1
+  cases h0; cases h1
+  rw [List.pairwise_iff_getElem]
+  intro i j hi hj hij
+  rw [List.length_map] at hi hj
+  rw [List.getElem_map, List.getElem_map]
+  have hpi : σ[i]? = some σ[i] := List.getElem?_eq_getElem (by omega)
+  have hqj : σ[j]? = some σ[j] := List.getElem?_eq_getElem (by omega)
+  have hp := hin _ (List.mem_of_getElem? hpi)
+  have hq := hin _ (List.mem_of_getElem? hqj)
+  have e1 := hlab i _ hpi
+  have e2 := hlab j _ hqj
+  rw [List.getElem?_eq_getElem hi, List.getElem?_eq_getElem hp] at e1
+  rw [List.getElem?_eq_getElem hj, List.getElem?_eq_getElem hq] at e2
+  rw [Option.some.inj e1, Option.some.inj e2]
+  exact (hst.2 i j _ _ _ _ hij hpi hqj (List.getElem?_eq_getElem hp) (List.getElem?_eq_getElem hq)).1
+
+/-- **when does `sort_axis(key=...)` succeed**: the axis exists, the key evaluates on every label of it, and the key values
+are mutually comparable (all numbers or all strings, or fewer than two of them) -/
+theorem sortAxis_key_ok_iff {α : Type} (a : DimArray α) (k : DimKey) (key : Label → Except Err Label) :
+    (∃ r, sortAxisKey a k key = .ok r) ↔
+      ∃ pos ks, axisPos a.axes k = .ok pos ∧ evalKeys key (a.axes.getD pos default).labels = .ok ks ∧
+        keysComparable ks = true := by
+  constructor
+  · rintro ⟨r, h⟩
+    cases hpos : axisPos a.axes k with
+    | error e => rw [sortAxisKey_error_pos a k key e hpos] at h; cases h
+    | ok pos =>
+      obtain ⟨ks, h1, h2, -⟩ := sortAxisKey_eq a r k key pos hpos h
+      exact ⟨pos, ks, rfl, h1, h2⟩
+  · rintro ⟨pos, ks, h1, h2, h3⟩
+    exact ⟨_, sortAxisKey_of_parts a k key pos ks h1 h2 h3⟩
+
+/-- **which error**: the error of the axis lookup; else the exception of the FIRST label (in axis order) on which the key
+raises; else TypeError when two key values cannot be compared -/
+theorem sortAxis_key_error {α : Type} (a : DimArray α) (k : DimKey) (key : Label → Except Err Label) (e : Err)
+    (h : sortAxisKey a k key = .error e) :
+    axisPos a.axes k = .error e ∨
+    (∃ pos ax, axisPos a.axes k = .ok pos ∧ a.axes[pos]? = some ax ∧
+      ((∃ (i : Nat) (l : Label), ax.labels[i]? = some l ∧ key l = .error e ∧
+          ∀ i' l', i' < i → ax.labels[i']? = some l' → ∃ v, key l' = .ok v) ∨
+       (e = .type ∧ ∃ ks, evalKeys key ax.labels = .ok ks ∧ keysComparable ks = false))) := by
+  cases hpos : axisPos a.axes k with
+  | error e' =>
+    rw [sortAxisKey_error_pos a k key e' hpos] at h
+    cases h; exact .inl rfl
+  | ok pos =>
+    right
+    have hlt := axisPos_lt _ _ _ hpos
+    have hax : a.axes[pos]? = some (a.axes.getD pos default) := by
+      rw [List.getD_eq_getElem?_getD, List.getElem?_eq_getElem hlt]; rfl
+    refine ⟨pos, _, rfl, hax, ?_⟩
+    cases hk : evalKeys key (a.axes.getD pos default).labels with
+    | error e' =>
+      rw [sortAxisKey_error_key a k key pos e' hpos hk] at h
+      cases h
+      exact .inl (evalKeys_error key _ _ hk)
+    | ok ks =>
+      cases hc : keysComparable ks with
+      | true => rw [sortAxisKey_of_parts a k key pos ks hpos hk hc] at h; cases h
+      | false =>
+        rw [sortAxisKey_error_cmp a k key pos ks hpos hk hc] at h
+        cases h
+        exact .inr ⟨rfl, ks, rfl, hc⟩
+
+/-- with the identity key (`key=lambda x: x`) and mutually comparable labels, `sort_axis(key=...)` is `sort_axis()` -/
+theorem sortAxis_key_ident {α : Type} (a : DimArray α) (k : DimKey)
+    (hcmp : ∀ pos, axisPos a.axes k = .ok pos → keysComparable (a.axes.getD pos default).labels = true) :
+    sortAxisKey a k (fun l => .ok l) = sortAxis a k := by
+  cases hpos : axisPos a.axes k with
+  | error e =>
+    rw [sortAxisKey_error_pos a k _ e hpos]
+    unfold sortAxis; rw [hpos]; rfl
+  | ok pos =>
+    have hk := evalKeys_of_forall (fun l => .ok l) (fun l => l) (a.axes.getD pos default).labels (fun _ _ => rfl)
+    rw [List.map_id'] at hk
+    rw [sortAxisKey_of_parts a k _ pos _ hpos hk (hcmp pos hpos)]
+    unfold sortAxis; rw [hpos]; rfl
+
+/-- **descending sort** (`key=lambda x: -x`, the docstring's example): on a numeric axis the result labels descend -/
+theorem sortAxis_key_neg_descending {α : Type} (a r : DimArray α) (k : DimKey) (pos : Nat) (ax ax' : Axis)
+    (hwf : a.WF) (hpos : axisPos a.axes k = .ok pos) (hax : a.axes[pos]? = some ax)
+    (h : sortAxisKey a k KeyFn.neg.eval = .ok r) (hax' : r.axes[pos]? = some ax') :
+    ax'.labels.Pairwise (fun x y => Label.le y x = true) := by
+  obtain ⟨hall, σ, -, hsel, -⟩ := sortAxis_key_spec a r k _ pos ax hwf hpos hax h
+  have hs := sortAxis_key_sorted a r k _ pos ax ax' hwf hpos hax h hax'
+  rw [List.pairwise_map] at hs
+  -- every result label is an input label, hence a number
+  obtain ⟨ax0, ax1, h0, h1, -, -, -, -, hlen, hin, hlab⟩ := hsel.axis
+  rw [hax] at h0; rw [hax'] at h1
+  cases h0; cases h1
+  have hnum : ∀ x ∈ ax'.labels, ∃ q, x = .num q := by
+    intro x hx
+    obtain ⟨i, hi, rfl⟩ := List.getElem_of_mem hx
+    have hpi : σ[i]? = some σ[i] := List.getElem?_eq_getElem (by omega)
+    have hp := hin _ (List.mem_of_getElem? hpi)
+    have e1 := hlab i _ hpi
+    rw [List.getElem?_eq_getElem hi, List.getElem?_eq_getElem hp] at e1
+    rw [Option.some.inj e1]
+    have := hall _ (List.getElem_mem hp)
+    cases hl : ax.labels[σ[i]] with
+    | num q => exact ⟨q, rfl⟩
+    | str s => rw [hl] at this; simp [KeyFn.eval] at this
+    | none => rw [hl] at this; simp [KeyFn.eval] at this
+  refine List.Pairwise.imp_of_mem ?_ hs
+  intro x y hx hy hxy
+  obtain ⟨q1, rfl⟩ := hnum x hx
+  obtain ⟨q2, rfl⟩ := hnum y hy
+  simp only [keyOr, KeyFn.eval, Label.le, decide_eq_true_eq] at hxy ⊢
+  exact Rat.neg_le_neg_iff.mp hxy
+
+namespace C17Ex
+
+/-- the stable sorting permutation of the labels `[2, 0, 2]` by the key `-x` is `[0, 2, 1]`: the two labels `2` first, in
+their original order -/
+theorem exX_neg_perm : IsStableArgsortBy (keyOr KeyFn.neg.eval) exX.labels [0, 2, 1] := by
+  refine ⟨by decide, ?_⟩
+  intro i j p q x y hij hp hq hx hy
+  have hj : j < 3 := by
+    rcases Nat.lt_or_ge j 3 with h | h
+    · exact h
+    · rw [List.getElem?_eq_none (by simpa using h)] at hq; cases hq
+  have : (i = 0 ∧ j = 1) ∨ (i = 0 ∧ j = 2) ∨ (i = 1 ∧ j = 2) := by omega
+  rcases this with ⟨rfl, rfl⟩ | ⟨rfl, rfl⟩ | ⟨rfl, rfl⟩ <;>
+    simp only [List.getElem?_cons_zero, List.getElem?_cons_succ, Option.some.injEq] at hp hq <;>
+    subst hp hq <;> simp [exX] at hx hy <;> subst hx hy <;> simp [Label.le, keyOr, KeyFn.eval] <;> decide
+
+/-- `sortAxis_key_spec` applies to the key `-x` on the labels `[2, 0, 2]`, and pins the result down -/
+example : ∃ r, sortAxisKey exA (.name "x") KeyFn.neg.eval = .ok r ∧ SelectsSlices exA r 0 [0, 2, 1] := by
+  have hk : evalKeys KeyFn.neg.eval (exA.axes.getD 0 default).labels = .ok [.num (-2), .num (-0), .num (-2)] := rfl
+  have h := sortAxisKey_of_parts exA (.name "x") KeyFn.neg.eval 0 _ exA_pos hk (by decide)
+  obtain ⟨-, σ, h1, h2, -⟩ := sortAxis_key_spec exA _ (.name "x") _ 0 exX exA_wf exA_pos rfl h
+  have hσ : σ = [0, 2, 1] := h1.unique exX_neg_perm
+  subst hσ
+  exact ⟨_, h, h2⟩
+
+/-- a key that raises: `len` on a numeric label is a TypeError -/
+example : sortAxisKey exA (.name "x") KeyFn.len.eval = .error .type := by
+  have hk : evalKeys KeyFn.len.eval (exA.axes.getD 0 default).labels = .error .type := rfl
+  exact sortAxisKey_error_key exA _ _ 0 _ exA_pos hk
+
+/-- ... and a dict key: `{"a": 1, "b": 0}` on the axis `["b", "a"]` keeps the order -/
+example : ∃ r, sortAxisKey exA (.pos (-1)) (KeyFn.table [(.str "a", .num 1), (.str "b", .num 0)]).eval = .ok r ∧
+    r = takeAxisPos exA 1 [0, 1] := by
+  have hk : evalKeys (KeyFn.table [(.str "a", .num 1), (.str "b", .num 0)]).eval (exA.axes.getD 1 default).labels =
+      .ok [.num 0, .num 1] := by
+    simp [evalKeys, KeyFn.eval, exA, exY, List.find?, show (Label.str "a" == Label.str "b") = false from by decide]
+  refine ⟨_, sortAxisKey_of_parts exA (.pos (-1)) _ 1 [.num 0, .num 1] exA_pos1 hk (by decide), ?_⟩
+  rw [argsortBy_of_pairwise Label.le _ (by simp [Label.le]; decide)]
+  rfl
+
+end C17Ex
+
+/-! ## `compress(mask)` / `a[mask]` with a boolean mask of the full shape (mirror `Lib.compressNd`, Lib/Missing2.lean) -/
+
+/-- **full-shape boolean selection on an array of rank ≠ 1, end to end.** With a mask of the shape of the array the call
+succeeds and returns the 1-D array over an axis of label TUPLES named by the comma-joined dimension names; there is a list
+`sel` of indices - a sublist of the row-major (C order) enumeration of all indices of the shape, without repeats - such that
+result position `k` holds the cell of the input at index `sel[k]` together with that cell's own labels (one per dimension:
+`compressNd_coord`), the mask is true at every `sel[k]`, and every in-range index where the mask is true occurs in `sel`
+(`compressNd_complete`). Array metadata and dtype kind are kept. -/
+theorem compressNd_spec {α : Type} (a : DimArray α) (mask : NDArr Bool) (hwf : a.WF) (hrank : a.ndim ≠ 1)
+    (hshape : mask.shape = a.vals.shape) :
+    ∃ (t : TupleArr α) (sel : List (List Nat)), compressNd a mask = .ok (.inr t) ∧
+      sel.Sublist (allIdx a.vals.shape) ∧ sel.Nodup ∧
+      t.name = ",".intercalate a.dims ∧ t.vkind = a.vkind ∧ t.attrs = a.attrs ∧
+      t.cells.length = sel.length ∧ t.coords.length = sel.length ∧
+      ∀ (k : Nat) (j : List Nat), sel[k]? = some j →
+        InRange a.vals.shape j ∧ mask.get j = true ∧
+        t.cells[k]? = some (a.vals.get j) ∧ t.coords[k]? = some (coordLabels a.axes j) := by
+  have hnd : a.vals.shape.length = a.ndim := by rw [hwf.1, List.length_map]; rfl
+  refine ⟨_, (allIdx a.vals.shape).filter mask.get, compressNd_eq_tuple a mask hrank hshape hnd,
+    List.filter_sublist, List.Nodup.sublist List.filter_sublist (allIdx_nodup _), rfl, rfl, rfl,
+    by simp, by simp, ?_⟩
+  intro k j hk
+  have hmem := List.mem_of_getElem? hk
+  rw [List.mem_filter] at hmem
+  refine ⟨mem_allIdx _ _ hmem.1, hmem.2, ?_, ?_⟩
+  · simp only [List.getElem?_map, hk, Option.map_some]
+  · simp only [List.getElem?_map, hk, Option.map_some]
+
+/-- nothing selected is lost: with the `sel` of `compressNd_spec` (it is `filter mask (allIdx shape)`), every in-range index
+at which the mask is true is in it -/
+theorem compressNd_complete {α : Type} (a : DimArray α) (mask : NDArr Bool) (j : List Nat)
+    (hj : InRange a.vals.shape j) (hm : mask.get j = true) :
+    j ∈ (allIdx a.vals.shape).filter mask.get :=
+  List.mem_filter.mpr ⟨inRange_mem_allIdx _ _ hj, hm⟩
+
+/-- the tuple label of a selected cell: component `i` is the label of axis `i` at the cell's coordinate along it, and there
+is one component per dimension -/
+theorem compressNd_coord {α : Type} (a : DimArray α) (hwf : a.WF) (j : List Nat) (hj : InRange a.vals.shape j) :
+    (coordLabels a.axes j).length = a.axes.length ∧
+    ∀ (i : Nat) (ax : Axis) (p : Nat), a.axes[i]? = some ax → j[i]? = some p →
+      (coordLabels a.axes j)[i]? = some (ax.labels.getD p Label.none) := by
+  refine ⟨coordLabels_length _ _ ?_, fun i ax p => coordLabels_getElem? _ _ i ax p⟩
+  rw [inRange_length _ _ hj, hwf.1, List.length_map]
+
+/-- **rank 1**: the full-shape selection is `compress_axis` along the only axis, so `compressAxis_spec` applies: the result
+is the input restricted to the positions where the mask is true, labels and cells staying paired -/
+theorem compressNd_rank1 {α : Type} (a : DimArray α) (mask : NDArr Bool) (ax : Axis) (hwf : a.WF) (hax : a.axes = [ax])
+    (hplain : ax.members = []) (hshape : mask.shape = a.vals.shape) :
+    ∃ r, compressNd a mask = .ok (.inl r) ∧
+      SelectsSlices a r 0 ((List.range ax.labels.length).filter (fun i => mask.get [i] = true)) := by
+  have hrank : a.ndim = 1 := by simp [DimArray.ndim, hax]
+  have hnd : a.vals.shape.length = a.ndim := by rw [hwf.1, List.length_map]; rfl
+  have hsz : a.vals.shape = [ax.labels.length] := by rw [hwf.1, hax]; simp [Axis.size, hplain]
+  have hpos : axisPos a.axes (.pos 0) = .ok 0 := axisPos_pos _ 0 (by rw [hax]; simp)
+  have hax0 : a.axes[0]? = some ax := by rw [hax]; rfl
+  rw [compressNd_eq_axis a mask hrank hshape hnd]
+  have hm0 : mask.shape.getD 0 0 = ax.labels.length := by rw [hshape, hsz]; rfl
+  rw [hm0]
+  obtain ⟨r, hr⟩ := (compressAxis_ok_iff a ((List.range ax.labels.length).map fun i => mask.get [i]) (.pos 0) 0 ax hpos hax0).mpr
+    (by simp [Axis.size, hplain])
+  refine ⟨r, by rw [hr]; rfl, ?_⟩
+  have hspec := (compressAxis_spec a r _ (.pos 0) 0 ax hwf hpos hax0 hplain hr).2
+  have heq : (List.range ((List.range ax.labels.length).map fun i => mask.get [i]).length).filter
+        (fun i => ((List.range ax.labels.length).map fun i => mask.get [i])[i]? = some true) =
+      (List.range ax.labels.length).filter (fun i => mask.get [i] = true) := by
+    rw [List.length_map, List.length_range]
+    apply List.filter_congr
+    intro i hi
+    rw [List.mem_range] at hi
+    simp [List.getElem?_map, List.getElem?_range hi]
+  rw [heq] at hspec
+  exact hspec
+
+/-- **when does it succeed**: exactly when the mask has the shape of the array; a mask of another rank is a ValueError, a
+mask of the right rank and another shape an IndexError (never a silent mis-selection) -/
+theorem compressNd_ok_iff {α : Type} (a : DimArray α) (mask : NDArr Bool) (hwf : a.WF)
+    (hplain : ∀ ax ∈ a.axes, ax.members = []) :
+    ((∃ r, compressNd a mask = .ok r) ↔ mask.shape = a.vals.shape) ∧
+    (mask.shape.length ≠ a.ndim → compressNd a mask = .error .value) ∧
+    (mask.shape.length = a.ndim → mask.shape ≠ a.vals.shape → compressNd a mask = .error .index) := by
+  have hnd : a.vals.shape.length = a.ndim := by rw [hwf.1, List.length_map]; rfl
+  refine ⟨⟨?_, ?_⟩, compressNd_err_rank a mask, compressNd_err_shape a mask⟩
+  · rintro ⟨r, hr⟩
+    by_cases h1 : mask.shape.length = a.ndim
+    · by_cases h2 : mask.shape = a.vals.shape
+      · exact h2
+      · rw [compressNd_err_shape a mask h1 h2] at hr; cases hr
+    · rw [compressNd_err_rank a mask h1] at hr; cases hr
+  · intro hshape
+    by_cases hrank : a.ndim = 1
+    · have hlen : a.axes.length = 1 := hrank
+      obtain ⟨ax, hax⟩ : ∃ ax, a.axes = [ax] := by
+        match h : a.axes, hlen with
+        | [ax], _ => exact ⟨ax, rfl⟩
+      obtain ⟨r, hr, -⟩ := compressNd_rank1 a mask ax hwf hax (hplain ax (by rw [hax]; simp)) hshape
+      exact ⟨_, hr⟩
+    · exact ⟨_, compressNd_eq_tuple a mask hrank hshape hnd⟩
+
+namespace C17Ex
+
+/-- `compressNd_spec` applies to the 3 x 2 example: the mask true at (0,0) and (1,1) selects the cells 10 and 40 with the
+tuple labels (2, "b") and (0, "a") -/
+example : ∃ t, compressNd exA { shape := [3, 2], get := fun j => j == [0, 0] || j == [1, 1] } = .ok (.inr t) ∧
+    t.name = "x,y" ∧ t.cells = [some 10, some 40] ∧ t.coords = [[.num 2, .str "b"], [.num 0, .str "a"]] := by
+  refine ⟨_, compressNd_eq_tuple exA _ (by decide) rfl rfl, by decide, ?_, ?_⟩ <;> rfl
 
 end C17Ex
 
